@@ -57,7 +57,7 @@ pub fn oracle(c: &Corpus, seed: u64, tier: &str) -> Vec<Report> {
     let mut distinct = BTreeSet::new();
     let mut rng = Rng(seed ^ 0xC02);
     let optsets = [Opts::DEFAULT, Opts { unescape: false, trailing: Some(true), limit: None }, Opts { unescape: true, trailing: None, limit: Some(0) }, Opts { unescape: true, trailing: None, limit: Some(1) }, Opts { unescape: true, trailing: None, limit: Some(3) }];
-    let frags = ["SELECT", " ", "\n", "'", "\"", "`", "[", "]", "(", ")", ",", ";", "--", "/*", "*/", "$$", "$a$", "N'", "E'", "U&'", "X'", "B'", "R'", "'''", "\"\"\"", "1e", "1e+", ".5", "1.", "0x", "@", "@@", "#", "?", "::", ":", "->", "->>", "#>", "<=>", "||", "\\", "é", "𝒳", "\u{0}", "\u{a0}", "DIV", "NOT", "IN", "BETWEEN", "LIKE", "ESCAPE", "IS", "AT TIME ZONE", "INTERVAL", "CASE", "WHEN", "END", "FROM", "JOIN", "ON", "USING", "GROUP BY", "ORDER BY", "FLUSH", "RELAY LOGS FOR CHANNEL", "GRANT", "GRANTED BY", "TO", "CREATE EXTERNAL TABLE t (a INT)", "POSITION(", "SUBSTRING(", "TRIM(", "EXTRACT(", "CAST(", "AS", "ARRAY<", ">>", "STRUCT<", "MAP(", "a", "1", "*", "."];
+    let frags = ["SELECT", " ", "\n", "\r", "\r\n", "\t", "//", "#", "'", "\"", "`", "[", "]", "(", ")", ",", ";", "--", "/*", "*/", "$$", "$a$", "N'", "E'", "U&'", "X'", "B'", "R'", "'''", "\"\"\"", "1e", "1e+", ".5", "1.", "0x", "@", "@@", "#", "?", "::", ":", "->", "->>", "#>", "<=>", "||", "\\", "é", "𝒳", "\u{0}", "\u{a0}", "DIV", "NOT", "IN", "BETWEEN", "LIKE", "ESCAPE", "IS", "AT TIME ZONE", "INTERVAL", "CASE", "WHEN", "END", "FROM", "JOIN", "ON", "USING", "GROUP BY", "ORDER BY", "FLUSH", "RELAY LOGS FOR CHANNEL", "GRANT", "GRANTED BY", "TO", "CREATE EXTERNAL TABLE t (a INT)", "POSITION(", "SUBSTRING(", "TRIM(", "EXTRACT(", "CAST(", "AS", "ARRAY<", ">>", "STRUCT<", "MAP(", "a", "1", "*", "."];
     for (i, s) in c.literals.iter().enumerate() {
         if s.len() > 1500 { continue; }
         let k = i % ds.len();
